@@ -265,20 +265,16 @@ def rawOk (steps : List String) : Bool :=
 def dueNow (c : Clock) : Bool :=
   [c.ka, c.hold, c.dop].any fun d => match d with | some t => t ≤ c.now | none => false
 
-/-- the seconds a line lets pass without polling the session -/
-def waitSum (steps : List String) : Nat := (steps.filterMap parseWait).foldl (· + ·) 0
-
-/-- time that may pass without the hold timer's tick being taken: the `W<d>` steps, and for every `T` at most one
-keepalive interval (hold/3, at least 1 s); c08.rs refuses the same lines -/
-def unpolledBound (localHold : Nat) (steps : List String) : Nat :=
-  waitSum steps + (steps.filter (· == "T")).length * max 1 (localHold / 3)
-
 /-- what of a step's output reaches the outgoing queue (`send_pdu` = `try_send`) -/
 def queued (room : Nat) : StepResult → StepResult
   | .next s ok outs => .next s ok (accepted room outs)
   | r => r
 
-/-- one `h` line: session state, clock of the three polled timers, free slots of `pdu_out` -/
+/-- one `h` line: session state, clock of the three polled timers, free slots of `pdu_out`.  `none` (the
+whole line is `bad-op`) also when a step that is reached resets the hold timer while two of its ticks are
+outstanding (`Rc.Fsm.staleInput`: the second one survives the reset, `Clock` cannot say so); c08.rs refuses
+exactly the same lines (`reset_with_two_ticks`).  The timer events of `T` never reset the hold timer
+(`Rc.Thm.C08.timer_events_never_reset_hold`). -/
 def runHistQ (cfg : Cfg) : St → Clock → Nat → List String → Option (List String)
   | _, _, _, [] => some []
   | s, c, room, w :: rest =>
@@ -306,6 +302,7 @@ def runHistQ (cfg : Cfg) : St → Clock → Nat → List String → Option (List
       match parseStep w with
       | none => none
       | some i =>
+        if staleInput cfg s c i then none else
         match handleInput cfg s i with
         | .next s' ok outs =>
           (runHistQ cfg s' (clockInput cfg s c i) room rest).map (showResult (queued room (.next s' ok outs)) :: ·)
@@ -403,9 +400,6 @@ def handle (ws : List String) : String :=
     if steps.isEmpty then "bad-op" else
     match parseCfg cfg, parseInit init with
     | some cfg, some s =>
-      -- un-polled time stays below two hold intervals: the hold timer never has two ticks outstanding when the
-      -- session resets it (see `clockWait`)
-      if cfg.localHold != 0 && unpolledBound cfg.localHold steps ≥ 2 * cfg.localHold then "bad-op" else
       if !rawOk steps then "bad-op" else
       match runHistQ cfg s (Clock.ofSt cfg s) pduCap steps with
       | some l => " ; ".intercalate l
